@@ -10,6 +10,9 @@ import traceback
 import warnings
 
 
+GENERIC_REPLAY = {"C01", "C02", "C03", "C04", "C05", "C06", "C07", "C08", "C09", "C10", "C14", "C18"}
+
+
 def main():
     ap = argparse.ArgumentParser()
     ap.add_argument("pid")
@@ -24,10 +27,21 @@ def main():
     mod = importlib.import_module(f"harness.{pid.lower()}")
     props = C.proof_gate(rep, pid)
     replay = None
+    generic_replay = None
     if args.replay:
         replay = json.loads(open(args.replay).read())
+        if pid in GENERIC_REPLAY:
+            # deterministic re-execution: same seed and tier as the run that wrote the replay file; the violation
+            # is reproduced iff a violation with the same description occurs again
+            generic_replay, replay = replay, None
+            os.environ["VERIF_SEED"] = str(generic_replay.get("seed", C.seed()))
+            os.environ["VERIF_TIER"] = str(generic_replay.get("tier", args.tier))
     try:
         mod.run(rep, props, replay=replay)
+        if generic_replay is not None:
+            same = [v for v in rep.violations if json.load(open(v["replay"])).get("what") == generic_replay.get("what")]
+            print(f"replay of {args.replay}: " + ("REPRODUCED" if same else "not reproduced on the current tree"))
+            rep.violations = same
     except Exception as e:  # noqa: BLE001  - a crashing harness must not look like success
         tb = traceback.format_exc()
         rep.violation(f"check crashed: {type(e).__name__}: {e}", {"traceback": tb[-4000:]}, no_input=True)
